@@ -8,6 +8,12 @@ CLAIMED = {
  'C12': dict(cat='other', tech='static analysis: interprocedural may-write/may-read effect analysis by pointer provenance over the dispatch-resolved call graph + dominance rule on static-cache writes',
    text='Sound sufficient condition: no function taking a MODULE/PRECOMP may write or free a global or memory reachable from the table, nor read a static that library code writes (all dispatch candidates, flow-insensitive => every input/shape/interleaving); *_simple caches are only written behind an empty-slot test. Does not decide concurrent first calls of *_simple functions (documented unsupported).',
    note='trusted: clang/LLVM-14 IR, irdump, role table tables/roles.json; assembly kernels modelled as writing only their data arguments', ref='DESIGN 3/C12'),
+ 'C13': dict(cat='other', tech='static analysis: ordered access summaries with parameter provenance; flow-dependence rule under the aliasing substitution out == in',
+   text='For every documented aliasing pattern (module API and kernels), both CPU paths, every limb-count combination of the box incl. unequal sizes: no byte is read through the input parameter after it was written through the output parameter, so the aliased call computes what the out-of-place call computes; other memory obligations re-checked while aliased. The values produced by the dedicated in-place rotation/automorphism kernels are C09 (not applicable).',
+   note='trusted as C11; aliasing = same pointer and stride', ref='DESIGN 3/C13'),
+ 'C14': dict(cat='other', tech='static analysis: exhaustive instantiation of the conversion-table constructors over their finite parameter domain (narrow-integer overflow before widening, kernel selection vs documented windows)',
+   text='Decides the structural clauses only: (a) no magic constant is computed in a type that overflows on the admitted parameter domain, (b) every (m,bound) admitted by a constructor selects a kernel whose documented window covers the bound, on both CPU paths, (c) stored dimension equals the argument. Does NOT decide that the mantissa tricks round correctly (numeric).',
+   note='WINDOWS table transcribed from kernel names/comments; rounding correctness not decided', ref='DESIGN 3/C14'),
  'C15': dict(cat='other', tech='static analysis: global-state inventory, backward data-flow slices for cache keys vs constructor dependencies, provenance of alignment-sensitive accesses',
    text='Decides the history/alignment clauses structurally: every mutable static is a verified memoisation cache whose key covers every constructor parameter the table depends on; table-taking functions touch no static; no alignment-sensitive access on caller buffers. Dependence on prior contents of out/scratch is decided by the region engine (C11).',
    note='trusted as C12; log2m injective on powers of two', ref='DESIGN 3/C15'),
